@@ -172,3 +172,37 @@ func thmAddAddsOnlyPrefixes(t *Trie, b, x []byte) {
 	//@ assert h1 && !h0 ==> len(x) <= len(b) && forall j int :: 0 <= j && j < len(x) ==> x[j] == b[j]
 	_, _ = h0, h1
 }
+
+//@ theorem C15.deletePrunesPrefixes
+//@   props C15
+//@   requires t != nil && t <= alloc
+//@   requires forall y ref :: y != nil ==> !isnil(y.m)
+//@   requires forall y ref, k int :: has(y.m, k) ==> y.m[k] != nil
+//@   requires closed(heaphas(t.m), heapval(t.m), alloc) && tree(heaphas(t.m), heapval(t.m), alloc, t)
+//@   requires 1 <= i && i < len(b)
+//@   let H0 := old(heaphas(t.m))
+//@   let V0 := old(heapval(t.m))
+//@   let A0 := old(alloc)
+//@   let B := rawarr(b)
+//@   let OB := offset(b)
+//@   let N := len(b)
+// "Prefixes of a deleted word disappear" unless something else needs them
+// (tree-shaped tries): if a proper non-empty prefix b[:i] of b is still held
+// after a successful Delete(b), then the trie holds, after the deletion, a
+// sequence b[:s]+c with s >= i and c != b[s] - another sequence that has
+// b[:i] as a prefix. (The converse is C15.deleteKeepsDiverging plus the
+// prefix-closure of Has.)
+func thmDeletePrunesPrefixes(t *Trie, b []byte, i int) {
+	r := t.Delete(b)
+	h := t.Has(b[:i])
+	//@ assert mark(OB) && mark(N) && mark(i) && mark(i - 1) && mark(SI) && mark(SI + 1)
+	//@ assert r ==> chain(H0, V0, t, B, OB, N) && prunedOnly(H0, V0, heaphas(t.m), A0, t, B, OB, N) && prunedUpTo(H0, V0, heaphas(t.m), t, B, OB, N, SI)
+	//@ assert r && h ==> chain(heaphas(t.m), heapval(t.m), t, B, OB, i)
+	//@ assert r && h ==> walk(heaphas(t.m), heapval(t.m), t, B, OB, i - 1) == walk(H0, V0, t, B, OB, i - 1)
+	//@ assert r && h ==> heaphas(t.m)[walk(H0, V0, t, B, OB, i - 1)][B[OB + i - 1]]
+	//@ assert r && h ==> SI >= i
+	//@ assert r && h ==> forall k int :: {walk(H0, V0, t, B, OB, k)} 0 <= k && k < SI ==> heaphas(t.m)[walk(H0, V0, t, B, OB, k)][B[OB + k]]
+	//@ assert r && h ==> chain(heaphas(t.m), heapval(t.m), t, B, OB, SI) && walk(heaphas(t.m), heapval(t.m), t, B, OB, SI) == walk(H0, V0, t, B, OB, SI)
+	//@ assert r && h ==> exists c int :: c != B[OB + SI] && heaphas(t.m)[walk(heaphas(t.m), heapval(t.m), t, B, OB, SI)][c]
+	_, _ = r, h
+}
